@@ -12,7 +12,7 @@ C10.nondet     : no non-deterministic API; directory listings are sorted.
 
 import ast
 
-from ..core import attr_chain, iter_own, short, stored_names
+from ..core import attr_chain, iter_own, norm, short, stored_names
 from ..effects import Effects
 from ..fold import ModuleEnv, Unknown
 from ..setorder import SetOrder
@@ -339,8 +339,23 @@ SHALLOW_COPIERS = frozenset(
 
 
 def _mut_depths(f, name):
-    """[(depth, node)] of mutations rooted at local `name` inside f (depth 1 = name[k] = v / name.update())"""
+    """
+    [(depth, node)] of mutations rooted at the access path `name` inside f (depth 1 = name[k] = v /
+    name.update()). `name` is a local name or the normalised text of a longer path (`ir['returns']`).
+    """
     out = []
+
+    def depth_from(root, d):
+        while True:
+            if isinstance(root, ast.Name):
+                return d if root.id == name else None
+            if norm(root) == name:
+                return d
+            if not isinstance(root, (ast.Subscript, ast.Attribute)):
+                return None
+            d += 1
+            root = root.value
+
     for n in iter_own(f.node):
         tgts = []
         if isinstance(n, (ast.Assign, ast.AugAssign, ast.AnnAssign)):
@@ -348,18 +363,14 @@ def _mut_depths(f, name):
         elif isinstance(n, ast.Delete):
             tgts = [t for t in n.targets if isinstance(t, (ast.Subscript, ast.Attribute))]
         for t in tgts:
-            d, root = 0, t
-            while isinstance(root, (ast.Subscript, ast.Attribute)):
-                d += 1
-                root = root.value
-            if isinstance(root, ast.Name) and root.id == name:
+            if norm(t) == name:
+                continue  # rebinding the path itself, not a mutation below it
+            d = depth_from(t, 0)
+            if d:
                 out.append((d, n))
         if isinstance(n, ast.Call) and isinstance(n.func, ast.Attribute) and n.func.attr in MUTATORS:
-            d, root = 1, n.func.value
-            while isinstance(root, (ast.Subscript, ast.Attribute)):
-                d += 1
-                root = root.value
-            if isinstance(root, ast.Name) and root.id == name:
+            d = depth_from(n.func.value, 1)
+            if d:
                 out.append((d, n))
     return out
 
@@ -422,7 +433,22 @@ def _shared_nested(ctx):
                     pairs.append((t.id, n.value))
                 elif isinstance(t, ast.Tuple) and isinstance(n.value, ast.Tuple) and len(t.elts) == len(n.value.elts):
                     pairs += [(x.id, v) for x, v in zip(t.elts, n.value.elts) if isinstance(x, ast.Name)]
+                elif isinstance(t, (ast.Subscript, ast.Attribute)):
+                    # ir["returns"] = G.copy(): the copy lives on under the access path
+                    pairs.append((norm(t), n.value))
+            # `a or G.copy()`, `G.copy() if c else b`: each alternative may be the value
+            flat = []
             for lname, v in pairs:
+                stack = [v]
+                while stack:
+                    x = stack.pop()
+                    if isinstance(x, ast.BoolOp):
+                        stack.extend(x.values)
+                    elif isinstance(x, ast.IfExp):
+                        stack.extend((x.body, x.orelse))
+                    else:
+                        flat.append((lname, x))
+            for lname, v in flat:
                 kind, g = None, None
                 if isinstance(v, (ast.Name, ast.Attribute)):
                     kind, g = "alias", v
@@ -447,6 +473,14 @@ def _shared_nested(ctx):
                     isinstance(x, (ast.Dict, ast.List, ast.Set, ast.DictComp, ast.ListComp, ast.SetComp))
                     for x in (lit.values if isinstance(lit, ast.Dict) else lit.elts)
                 )
+                if isinstance(lit, ast.Call) and norm(lit.func).rpartition(".")[2] in ("OrderedDict", "dict", "list", "defaultdict", "deque"):
+                    # OrderedDict((("return_type", {}),)) / dict(a=[]) : a mutable display anywhere in the arguments
+                    nested = any(
+                        isinstance(x, (ast.Dict, ast.List, ast.Set, ast.DictComp, ast.ListComp, ast.SetComp))
+                        or (isinstance(x, ast.Call) and norm(x.func).rpartition(".")[2] in ("OrderedDict", "dict", "list", "set", "defaultdict"))
+                        for a_ in list(lit.args) + [k.value for k in lit.keywords]
+                        for x in ast.walk(a_)
+                    )
                 limit = 1 if kind == "alias" else 2
                 if kind == "shallow copy" and not nested:
                     continue
